@@ -29,11 +29,17 @@ RULE = ('cases = shape x value class x NaN pattern x (dx, wavelength) x options:
         'file-object target, multi_intensity_action, config.precision 32; three routes (io Zygo pair, Interferogram save/load, Code V pair).  '
         'Truncation: every cut point of several written files per format (quick: the last 64 bytes plus every 7th before; thorough: every '
         'byte), read through io.read_zygo_dat AND Interferogram.from_zygo_dat / read_codev_gridint.  A case is non-trivial unless the map is '
-        '1x1 or constant; distinct = distinct (item, shape, class, NaN pattern, options, seed-derived values) tuples.')
+        '1x1 or constant; distinct = distinct (item, shape, class, NaN pattern, options, seed-derived values) tuples.  '
+        'Instrument-style Zygo files (items *.foreign): written files re-declared with phase_res 0/1/2 (and an undefined code 3), scale / '
+        'obliquity factors (fixed and random float32), header_size 834+{0,1,3,6}, an intensity block of 0..4 frames (ac_n_buckets 0 included) '
+        'and multi_intensity_action first/last/avg in any case, cycled so that every pair of settings occurs; read through io and Interferogram, '
+        'phase, header fields and the selected intensity frame compared with the layout model, every cut point of several of them.  Code V files '
+        're-declared (codev.foreign): keyword order x case x WVL/SSZ units x NDA sentinel x leading "!" lines x data line layout, with cuts.  '
+        'Call histories (ifg.history): save -> load -> save -> load -> save -> load of an Interferogram, each generation judged against the previous one.')
 ASSUMPTIONS = [
     'struct.pack/unpack, float32 rounding, np.savetxt / np.fromstring text formatting and tokenisation are trusted (modelled by Lean Float32 / by the harness tokeniser)',
     'IEEE arithmetic of NumPy and of Lean `Float`/`Float32` agree operation by operation: values are compared bit for bit; a difference of a few ulp / one count with the round trip holding is recorded as a note (re-associated arithmetic), anything else is a disagreement',
-    'the intensity block is absent (ac_width = ac_height = 0) and header_size = 834, as in every file the library writes; the model reader uses the constant 834',
+    'library-written files have no intensity block and header_size = 834 (PROVED: zygo_written_layout); the layout model (zygoReadL) takes header_size, ac_width, ac_height, ac_n_buckets from the header and is compared on instrument-style files; intensity samples are native-endian uint16 (little-endian on the machines the check runs on)',
     'float32 header fields: dx and wavelength are compared with relative tolerance 2^-23 (format limitation); with config.precision = 32 the representation error of the requested float32 result (2^-22 relative) is added to the one-step bound',
     'Code V files carry neither lateral spacing nor a physical wavelength (WVL 1.0 is a scale unit): the "same dx and wavelength" clause does not apply to that route',
     'samples outside the int32 / int16 format range are out of scope (the writers do not range-check); comments are single-line titles that do not start with "!"',
@@ -463,6 +469,560 @@ def close_ints(a, b):
 
 
 # ------------------------------------------------------------------------------------------------
+# "instrument-style" files: a library-written file whose header is re-declared the way instruments write it — another
+# phase-resolution code, scale / obliquity factors, a longer header, an intensity block of ac_n_buckets frames between
+# header and phase.  The height map of such a file must still come back in place (scaled by the declared factors), the
+# intensity block must not leak into it, and a cut must still be rejected or warned.
+# ------------------------------------------------------------------------------------------------
+_RES = {0: 4096, 1: 32768, 2: 131072}
+F_RES = [1, 0, 2]
+F_SO = [(1.0, 1.0), (0.5, 1.0), (1.0, 2.0), (1.5, 0.75), (0.25, 4.0)]
+F_INT = [(0, 0, 0), (3, 2, 0), (3, 2, 1), (2, 3, 2), (4, 1, 3), (1, 5, 4), (7, 3, 1)]
+F_PAD = [0, 6, 1, 0, 3]
+F_MIA = ['first', 'last', 'avg', 'AVG', 'Last']
+
+
+def foreign_variant(i, rng=None):
+    """the i-th combination (cycle lengths 3, 5, 7, 5, 5: every pair of settings appears within 35 consecutive i)"""
+    iw, ih, ib = F_INT[i % len(F_INT)]
+    S, O = F_SO[i % len(F_SO)]
+    if rng is not None and i % 4 == 3:
+        S, O = float(np.float32(10 ** rng.uniform(-0.6, 0.6))), float(np.float32(10 ** rng.uniform(-0.6, 0.6)))
+    return {'res': 3 if i % 11 == 10 else F_RES[i % 3], 'S': S, 'O': O, 'iw': iw, 'ih': ih, 'ib': ib, 'pad': F_PAD[(i // 3) % len(F_PAD)],
+            'mia': F_MIA[(i // 2) % len(F_MIA)], 'iseed': int(i * 7919 % 65536)}
+
+
+def foreign_block(fo):
+    nb = fo['ib'] if fo['ib'] else 1
+    n = fo['iw'] * fo['ih'] * nb
+    return ((np.arange(n, dtype=np.int64) * 40503 + fo['iseed']) % 65536).astype(np.uint16).reshape(nb, fo['ih'], fo['iw'])
+
+
+def make_foreign(raw, fo):
+    """-> (file bytes, offset of the phase block)"""
+    pio, _ = _impl()
+    helper = pio._zygo_metadata_helper()
+    b = bytearray(raw[:834])
+    for name, v in (('phase_res', fo['res']), ('scale_factor', fo['S']), ('obliquity_factor', fo['O']), ('ac_width', fo['iw']),
+                    ('ac_height', fo['ih']), ('ac_n_buckets', fo['ib']), ('header_size', 834 + fo['pad']),
+                    ('ac_n_bytes', foreign_block(fo).size * 2)):
+        fmt, lo, hi, _d = helper[name]
+        struct.pack_into(fmt, b, lo, v)
+    blk = foreign_block(fo).astype('<u2').tobytes()
+    pre = bytes(b) + bytes([0xA5] * fo['pad']) + blk
+    return pre + raw[834:], len(pre)
+
+
+def read_foreign(route, path, fo, prec32=False):
+    """-> (phase, lateral_resolution, wavelength, intensity)"""
+    pio, Interferogram = _impl()
+    with precision(prec32):
+        if route == 'ifg':
+            i2 = Interferogram.from_zygo_dat(path, multi_intensity_action=fo['mia'])
+            return i2.data, i2.meta['lateral_resolution'], i2.meta['wavelength'], i2.intensity
+        r = pio.read_zygo_dat(path, multi_intensity_action=fo['mia'])
+        return r['phase'], r['meta']['lateral_resolution'], r['meta']['wavelength'], r['intensity']
+
+
+def judge_foreign(full, lat0, wv0, fo, out, lat, wv, inten, prec32=False):
+    """the property on an instrument-style file, stated against the plain library file of the same map (`full`)"""
+    out = np.asarray(out, dtype=np.float64)
+    if tuple(out.shape) != tuple(full.shape):
+        return f'shape {tuple(full.shape)} came back as {tuple(out.shape)}'
+    if not np.array_equal(np.isnan(out), np.isnan(full)):
+        return (f'invalid samples moved: {np.argwhere(np.isnan(full)).tolist()[:4]} in the plain file, '
+                f'{np.argwhere(np.isnan(out)).tolist()[:4]} with {fo}')
+    k = fo['S'] * fo['O'] * 32768 / _RES[fo['res']]
+    ok = ~np.isnan(full)
+    if ok.any():
+        want = full[ok] * k
+        err = np.abs(out[ok] - want)
+        lim = (2.0 ** -21 if prec32 else 1e-12) * np.abs(want)
+        if (err > lim).any():
+            i = int(np.argmax(err - lim))
+            return (f'sample {np.argwhere(ok)[i].tolist()} reads {out[ok][i]!r}, the same counts in a plain file read {full[ok][i]!r} '
+                    f'(x{k} expected for scale {fo["S"]}, obliquity {fo["O"]}, phase_res {fo["res"]}; intensity '
+                    f'{fo["ib"]}x{fo["ih"]}x{fo["iw"]}, header {834 + fo["pad"]} bytes)')
+    if lat != lat0 or wv != wv0:
+        return f'lateral resolution / wavelength {lat0!r}, {wv0!r} came back as {lat!r}, {wv!r}'
+    blk = foreign_block(fo)
+    mia = fo['mia'].lower()
+    want_i = blk[0] if mia == 'first' else blk[-1] if mia == 'last' else blk.astype(np.float64).sum(axis=0) / blk.shape[0]
+    inten = np.asarray(inten)
+    if tuple(inten.shape) != tuple(want_i.shape) or not np.array_equal(np.asarray(inten, dtype=np.float64), np.asarray(want_i, dtype=np.float64)):
+        return f'intensity frame ({mia}) of a {blk.shape} block came back as shape {tuple(inten.shape)}: {np.asarray(inten).ravel()[:4]} vs {want_i.ravel()[:4]}'
+    return None
+
+
+def foreign_pred(route, a, dx, wvl, fo, tmp, cut=None, prec32=False):
+    pio, _ = _impl()
+    f = os.path.join(tmp, 'f.dat')
+    with _quiet():
+        pio.write_zygo_dat(f, np.array(a, dtype=float), dx=dx, wavelength=wvl)
+        raw = open(f, 'rb').read()
+        with precision(prec32):
+            r0 = pio.read_zygo_dat(f)
+        full, lat0, wv0 = r0['phase'], r0['meta']['lateral_resolution'], r0['meta']['wavelength']
+    data, off = make_foreign(raw, fo)
+    if fo['res'] not in _RES:
+        return None
+    if cut is None:
+        with open(f, 'wb') as fh:
+            fh.write(data)
+        with _quiet() as w:
+            out, lat, wv, inten = read_foreign(route, f, fo, prec32)
+            if _user_warned(w):
+                return 'complete instrument-style file read with a truncation warning'
+        return judge_foreign(np.asarray(full, dtype=np.float64), lat0, wv0, fo, out, lat, wv, inten, prec32)
+    if cut >= len(data):
+        return None
+    with open(f, 'wb') as fh:
+        fh.write(data)
+    with _quiet():
+        fullf = np.asarray(read_foreign('zygo', f, fo)[0], dtype=np.float64)
+    return judge_zygo_cut(fullf, read_foreign_cut(route, f, data, cut, fo), cut, hdr=off)
+
+
+def read_foreign_cut(route, path, data, k, fo):
+    with open(path, 'wb') as fh:
+        fh.write(data[:k])
+    with _quiet() as w:
+        try:
+            out = read_foreign(route, path, fo)[0]
+        except Exception as ex:   # noqa
+            return ('raise', type(ex).__name__)
+        return ('ok', np.asarray(out, dtype=np.float64), _user_warned(w))
+
+
+def _foreign_family(ctx, pio, Interferogram, tmp, zc):
+    f2w = C.f2w
+    bases = [c for c in zc if 2 <= c['v'].size <= 40 and nontrivial(c) and c['opt']['dtype'] == 'f8' and c['cls'] != 'huge']
+    # keep NaN patterns and shapes varied
+    bases = sorted(bases, key=lambda c: (c['nan'] == 'none', c['shape'][0] == c['shape'][1]))[:ctx.scale(6, 30)]
+    per = ctx.scale(12, 35) * (2 if ctx.widen else 1)
+    recs, lines = [], []
+    n = int(ctx.rng.integers(0, 35))
+    for c in bases:
+        f = os.path.join(tmp, 'fb.dat')
+        with _quiet():
+            pio.write_zygo_dat(f, c['a'], dx=c['dx'], wavelength=c['wvl'])
+            raw = open(f, 'rb').read()
+        for _ in range(per):
+            fo = foreign_variant(n, ctx.rng)
+            n += 1
+            prec32 = n % 5 == 0
+            route = 'ifg' if n % 3 == 0 else 'zygo'
+            with _quiet():
+                with precision(prec32):
+                    r0 = pio.read_zygo_dat(f if False else _rewrite(f, raw))
+            data, off = make_foreign(raw, fo)
+            rec = {'c': c, 'fo': fo, 'route': route, 'prec32': prec32, 'full': np.asarray(r0['phase'], dtype=np.float64),
+                   'lat0': r0['meta']['lateral_resolution'], 'wv0': r0['meta']['wavelength'], 'off': off}
+            with open(f, 'wb') as fh:
+                fh.write(data)
+            try:
+                with _quiet() as w:
+                    rec['out'] = read_foreign(route, f, fo, prec32)
+                    rec['warned'] = _user_warned(w)
+            except Exception as ex:   # noqa
+                rec['rerr'] = f'{type(ex).__name__}: {ex}'
+            lines.append(f'zreadl {1 if prec32 else 0} {fo["mia"].lower()} {data.hex()}')
+            recs.append(rec)
+    # truncation of instrument-style files: every cut point of the tier, both routes
+    trunc = []
+    tsel = [r for r in recs if r['fo']['iw'] * r['fo']['ih'] > 0 and not r['prec32'] and r['fo']['res'] in _RES]
+    # maps whose phase block is longer than the intensity block first: a reader that starts the repair inside the intensity
+    # block then shows numbers instead of raising
+    tsel.sort(key=lambda r: -(r['c']['v'].size * 4 - 2 * foreign_block(r['fo']).size))
+    tsel = (tsel[:1] + [r for r in tsel if r['fo']['pad'] and r['fo']['ib'] > 1][:1] + tsel[1:])[:ctx.scale(3, 8)]
+    for r in tsel:
+        f = os.path.join(tmp, 'ft.dat')
+        with _quiet():
+            pio.write_zygo_dat(f, r['c']['a'], dx=r['c']['dx'], wavelength=r['c']['wvl'])
+            raw = open(f, 'rb').read()
+        data, off = make_foreign(raw, r['fo'])
+        with open(f, 'wb') as fh:
+            fh.write(data)
+        with _quiet():
+            fullf = np.asarray(read_foreign('zygo', f, r['fo'])[0], dtype=np.float64)
+        ks = [k for k in _cuts(ctx, len(data)) if k >= 800] if not ctx.thorough else list(range(len(data)))
+        res = {rt: [read_foreign_cut(rt, f, data, k, r['fo']) for k in ks] for rt in ('zygo', 'ifg')}
+        lines.append(f'ztruncl 0 {r["fo"]["mia"].lower()} {data.hex()} ' + ' '.join(map(str, ks)))
+        trunc.append({'r': r, 'ks': ks, 'res': res, 'full': fullf, 'off': off})
+
+    rep = iter(C.lean_driver('C14', lines))
+    for rec in recs:
+        c, fo, route = rec['c'], rec['fo'], rec['route']
+        m = next(rep)
+        case = descr(c, {'route': route})
+        case['opt'] = {'foreign': fo, 'prec32': rec['prec32']}
+        item = f'{route}.foreign'
+        ctx.case(item, {'shape': case['shape'], 'values': case['values'], 'foreign': fo, 'p32': rec['prec32']}, nontrivial=True,
+                 tag=f'res{fo["res"]}{"(undefined)" if fo["res"] not in _RES else ""}/S{"1" if fo["S"] == 1 else "x"}O{"1" if fo["O"] == 1 else "x"}/int{fo["ib"]}x{fo["ih"]}x{fo["iw"]}/pad{fo["pad"]}/'
+                     f'{fo["mia"].lower()}{"/p32" if rec["prec32"] else ""}/{c["nan"]}')
+        if 'rerr' in rec:
+            # a resolution code outside ZYGO_PHASE_RES_FACTORS is rejected by both sides; any other exception is a difference
+            if m != 'none' or fo['res'] in _RES:
+                ctx.disagree(item, case, 'raised ' + rec['rerr'], m[:60])
+                ctx.pred_fail(item, case, 'reader raised on a complete instrument-style file: ' + rec['rerr'])
+            continue
+        if fo['res'] not in _RES:
+            ctx.disagree(item, case, 'array returned for an undefined phase_res code', m[:60])
+            continue
+        out, lat, wv, inten = rec['out']
+        bad = judge_foreign(rec['full'], rec['lat0'], rec['wv0'], fo, out, lat, wv, inten, rec['prec32'])
+        if rec.get('warned'):
+            bad = bad or 'complete instrument-style file read with a truncation warning'
+        if m == 'none' or m == 'bad-op':
+            ctx.disagree(item, case, f'array of shape {tuple(out.shape)}', m)
+        else:
+            left, right = m.split(' ; ')
+            t = left.split()
+            mvals = np.array([C.w2f(x) for x in t[7:]])
+            ti = right.split()
+            mi = np.array([C.w2f(x) for x in ti[3:]])
+            if tuple(out.shape) != (int(t[0]), int(t[1])):
+                ctx.disagree(item, case, f'shape {tuple(out.shape)}', f'shape {(int(t[0]), int(t[1]))}')
+            elif not same_bits(out, mvals):
+                if bad is None and close_values(out, mvals, 4 if not rec['prec32'] else 2 ** 30):
+                    ctx.notes.append(f'{item}: values differ from the model in the last bits only and the predicate holds: not a disagreement')
+                else:
+                    o64 = np.asarray(out, dtype=np.float64).ravel()
+                    bad_i = [i for i in range(o64.size) if not same_bits(o64[i:i + 1], mvals[i:i + 1])]
+                    i = bad_i[0]
+                    ctx.disagree(item, case, f'{len(bad_i)} samples differ; first at flat index {i}: {o64[i]!r}', f'{mvals[i]!r}')
+            if not same_bits([lat, wv], [C.w2f(t[2]), C.w2f(t[3])]) or t[6] == '1':
+                ctx.disagree(item, case, [lat, wv, rec.get('warned')], [C.w2f(t[2]), C.w2f(t[3]), t[6] == '1'], note='lateral_resolution, wavelength, warned')
+            inten = np.asarray(inten)
+            if tuple(inten.shape) != (int(ti[1]), int(ti[2])) or not np.array_equal(np.asarray(inten, dtype=np.float64).ravel(), mi):
+                ctx.disagree(item, case, f'intensity {tuple(inten.shape)} {np.asarray(inten).ravel()[:6].tolist()}',
+                             f'intensity {(int(ti[1]), int(ti[2]))} {mi[:6].tolist()}')
+        if bad:
+            ctx.pred_fail(item, case, bad)
+    for t in trunc:
+        r = t['r']
+        replies = next(rep).split(' | ')
+        for route in ('zygo', 'ifg'):
+            for k, rs, m in zip(t['ks'], t['res'][route], replies):
+                zone = 'header' if k < 834 + r['fo']['pad'] else 'intensity' if k < t['off'] else 'data'
+                case = descr(r['c'], {'route': route, 'cut': k})
+                case['opt'] = {'foreign': r['fo']}
+                item = f'{route}.foreign_truncation'
+                ctx.case(item, {'shape': case['shape'], 'values': case['values'], 'cut': k, 'foreign': r['fo']}, nontrivial=True,
+                         tag=f'{zone}/{(k - t["off"]) % 4 if k >= t["off"] else "-"}/int{r["fo"]["ib"]}x{r["fo"]["ih"]}x{r["fo"]["iw"]}/pad{r["fo"]["pad"]}')
+                if rs[0] == 'raise':
+                    if m != 'none':
+                        ctx.disagree(item, case, f'raised {rs[1]}', m[:80])
+                elif m == 'none':
+                    ctx.disagree(item, case, f'array {tuple(rs[1].shape)}, warned={rs[2]}', 'rejected')
+                else:
+                    tt = m.split()
+                    mvals = np.array([C.w2f(x) for x in tt[7:]])
+                    if (int(tt[0]), int(tt[1])) != tuple(rs[1].shape) or (tt[6] == '1') != rs[2] or \
+                            not (same_bits(rs[1], mvals) or close_values(rs[1], mvals)):
+                        ctx.disagree(item, case, f'invalid at {np.flatnonzero(np.isnan(rs[1].ravel())).tolist()[:8]} warned={rs[2]}',
+                                     f'invalid at {np.flatnonzero(np.isnan(mvals)).tolist()[:8]} warned={tt[6] == "1"}')
+                bad = judge_zygo_cut(t['full'], rs, k, hdr=t['off'])
+                if bad:
+                    ctx.pred_fail(item, case, bad)
+
+
+# ------------------------------------------------------------------------------------------------
+# Code V files as other programs write them: the same grid re-declared with the header keywords in another order / case,
+# a physical wavelength (WVL w with SSZ scaled by w: the same nanometres per count), another no-data sentinel, leading
+# "!" comment lines, another line layout of the data block.  The map must come back as from the plain file.
+# ------------------------------------------------------------------------------------------------
+CV_ORDERS = [(0, 1, 2, 3, 4, 5), (5, 4, 3, 2, 1, 0), (2, 0, 4, 1, 5, 3), (1, 2, 3, 4, 5, 0), (4, 2, 0, 5, 3, 1)]
+CV_WVL = ['1.0', '0.6328', '0.5', '10.6', '2', '1e0']
+CV_NDA = [-32768, 32767, -9999, 12345, -32768, 0]
+CV_BANG = [[], ['! written by another program'], ['  ! indented comment', '!'], []]
+CV_LAYOUT = ['same', 'one-line', 'one-per-line', 'tabs']
+
+
+def cv_foreign_variant(i):
+    return {'order': i % len(CV_ORDERS), 'wvl': CV_WVL[i % len(CV_WVL)], 'nda': CV_NDA[(i // 2) % len(CV_NDA)], 'bang': (i // 3) % len(CV_BANG),
+            'layout': CV_LAYOUT[i % len(CV_LAYOUT)], 'case': ['upper', 'lower', 'mixed'][(i // 5) % 3]}
+
+
+def make_cv_foreign(text, fo):
+    d, ints, _nl, _ends = parse_cv(text)
+    old_nda = int(d['NDA'])
+    nda = fo['nda']
+    while nda in ints and nda != old_nda:       # the new sentinel must not collide with a valid sample
+        nda += 1 if nda < 32767 else -1
+    ints2 = [nda if v == old_nda else v for v in ints]
+    w = float(fo['wvl'])
+    ssz = repr(float(d['SSZ']) * w)
+    flags = d.get('flags', [])
+    typ = [t for t in flags if t != 'NNB']
+    groups = [['GRD', str(d['GRD'][0]), str(d['GRD'][1])], typ, ['WVL', fo['wvl']], [t for t in flags if t == 'NNB'], ['SSZ', ssz], ['NDA', str(nda)]]
+
+    def kw(t):
+        if not t.isalpha():
+            return t
+        return t.upper() if fo['case'] == 'upper' else t.lower() if fo['case'] == 'lower' else t.capitalize()
+    hdr = ' '.join(kw(t) for g in (groups[j] for j in CV_ORDERS[fo['order']]) for t in g)
+    lines = text.split('\n')
+    body = [ln for ln in lines[2:] if ln.strip()]
+    if fo['layout'] == 'one-line':
+        data = ' '.join(map(str, ints2)) + '\n'
+    elif fo['layout'] == 'one-per-line':
+        data = ''.join(f'{v}\n' for v in ints2)
+    elif fo['layout'] == 'tabs':
+        data = '\t'.join(map(str, ints2)) + ' \n'
+    else:
+        it = iter(ints2)
+        data = ''.join(' '.join(str(next(it)) for _ in ln.split()) + '\n' for ln in body)
+    return '\n'.join(CV_BANG[fo['bang']] + [d['title'], hdr]) + '\n' + data
+
+
+def judge_cv_foreign(full, out, meta, fo, title, prec32=False):
+    out = np.asarray(out, dtype=np.float64)
+    full = np.asarray(full, dtype=np.float64)
+    if tuple(out.shape) != tuple(full.shape):
+        return f'shape {tuple(full.shape)} came back as {tuple(out.shape)} with {fo}'
+    if not np.array_equal(np.isnan(out), np.isnan(full)):
+        return (f'invalid samples moved: {np.argwhere(np.isnan(full)).tolist()[:4]} in the plain file, '
+                f'{np.argwhere(np.isnan(out)).tolist()[:4]} with {fo}')
+    ok = ~np.isnan(full)
+    if ok.any():
+        err = np.abs(out[ok] - full[ok])
+        lim = (2.0 ** -21 if prec32 else 1e-12) * np.abs(full[ok])
+        if (err > lim).any():
+            i = int(np.argmax(err - lim))
+            return f'sample {np.argwhere(ok)[i].tolist()} reads {out[ok][i]!r}, the plain file of the same grid reads {full[ok][i]!r} ({fo})'
+    if meta.get('wavelength') != float(fo['wvl']):
+        return f'wavelength WVL {fo["wvl"]} came back as {meta.get("wavelength")!r}'
+    if meta.get('title') != title:
+        return f'title {title!r} came back as {meta.get("title")!r}'
+    return None
+
+
+def cv_foreign_pred(a, fo, tmp, cut=None, opt=None):
+    pio, _ = _impl()
+    f = os.path.join(tmp, 'cf.int')
+    with _quiet():
+        write_codev(pio, f, np.array(a, dtype=float), opt)
+        text = open(f).read()
+        full, _m = pio.read_codev_gridint(f)
+    text2 = make_cv_foreign(text, fo)
+    with open(f, 'w') as fh:
+        fh.write(text2)
+    if cut is None:
+        with _quiet() as w:
+            out, meta = pio.read_codev_gridint(f)
+            if any('truncat' in str(x.message) for x in w):
+                return 'complete re-declared file read with a truncation warning'
+        return judge_cv_foreign(full, out, meta, fo, parse_cv(text)[0]['title'])
+    if cut >= len(text2):
+        return None
+    with _quiet():
+        full2, _m = pio.read_codev_gridint(f)
+    return judge_cv_cut(full2, read_cv_cut(f, text2, cut), text2, cut)
+
+
+def _cv_foreign_family(ctx, pio, tmp, crec):
+    f2w = C.f2w
+    bases = [r for r in crec if 'text' in r and 'out' in r and 'parsed' in r and 2 <= r['c']['v'].size <= 40 and nontrivial(r['c'])
+             and r['c']['nan'] != 'all' and (r['c']['opt'].get('comment') is None)]
+    bases = sorted(bases, key=lambda r: (r['c']['nan'] == 'none',))[:ctx.scale(8, 40)]
+    per = ctx.scale(8, 30) * (2 if ctx.widen else 1)
+    n = int(ctx.rng.integers(0, 60))
+    recs, lines = [], []
+    for r in bases:
+        f = os.path.join(tmp, 'cfb.int')
+        for _ in range(per):
+            fo = cv_foreign_variant(n)
+            n += 1
+            prec32 = n % 7 == 0
+            text2 = make_cv_foreign(r['text'], fo)
+            with open(f, 'w') as fh:
+                fh.write(r['text'])
+            with _quiet():
+                full = read_codev(pio, f, {'prec32': prec32})[0]
+            with open(f, 'w') as fh:
+                fh.write(text2)
+            rec = {'r': r, 'fo': fo, 'prec32': prec32, 'full': full, 'text': text2}
+            try:
+                with _quiet() as w:
+                    rec['out'], rec['meta'] = read_codev(pio, f, {'prec32': prec32})
+                    rec['warned'] = any('truncat' in str(x.message) for x in w)
+            except Exception as ex:   # noqa
+                rec['rerr'] = f'{type(ex).__name__}: {ex}'
+            d, ints, _nl, ends = parse_cv(text2)
+            lines.append(f'cvr {1 if prec32 else 0} {d["GRD"][0]} {d["GRD"][1]} {f2w(float(d["WVL"]))} {f2w(float(d["SSZ"]))} '
+                         f'{int(d["NDA"])} {1 if ends else 0} ' + ' '.join(map(str, ints)))
+            lines.append('cvpre ' + text2.encode('utf-8').hex())
+            recs.append(rec)
+    # every cut point of a few re-declared files
+    trunc = []
+    for rec in [x for x in recs if not x['prec32'] and 'out' in x and x['fo']['bang']][:ctx.scale(2, 6)]:
+        f = os.path.join(tmp, 'cft.int')
+        ks = _cuts(ctx, len(rec['text']))
+        trunc.append({'rec': rec, 'ks': ks, 'res': [read_cv_cut(f, rec['text'], k) for k in ks]})
+    # preambles the reader must reject: a comment line / a title that runs into the end of the file
+    bad_pre = ['! only a comment', '  !x\n! y', 'title without a newline', '!\n!\n']
+    bad_res = []
+    for tx in bad_pre:
+        f = os.path.join(tmp, 'cfp.int')
+        with open(f, 'w') as fh:
+            fh.write(tx)
+        try:
+            with _quiet():
+                pio.read_codev_gridint(f)
+            bad_res.append('ok')
+        except Exception as ex:   # noqa
+            bad_res.append('raise')
+        lines.append('cvpre ' + tx.encode('utf-8').hex())
+    rep = iter(C.lean_driver('C14', lines))
+    for rec in recs:
+        r, fo = rec['r'], rec['fo']
+        c = r['c']
+        m = next(rep)
+        mp = next(rep).split()
+        if 'meta' in rec:
+            got = rec['meta'].get('title', '').encode('utf-8').hex()
+            ctx.case('codev.preamble', {'text': rec['text'][:80], 'bang': fo['bang']}, nontrivial=True, tag=f'bang{fo["bang"]}')
+            if mp[0] != got:
+                ctx.disagree('codev.preamble', {'text': rec['text'][:80]}, rec['meta'].get('title'), mp[:2])
+        case = descr(c, {'route': 'codev'})
+        case['opt'] = dict(c['opt'], cvforeign=fo)
+        item = 'codev.foreign'
+        ctx.case(item, {'shape': case['shape'], 'values': case['values'], 'foreign': fo, 'p32': rec['prec32'], 'opt': c['opt']}, nontrivial=True,
+                 tag=f'order{fo["order"]}/{fo["case"]}/wvl{fo["wvl"]}/nda{fo["nda"]}/bang{fo["bang"]}/{fo["layout"]}{"/p32" if rec["prec32"] else ""}/{c["nan"]}')
+        if 'rerr' in rec:
+            ctx.disagree(item, case, 'raised ' + rec['rerr'], m[:60])
+            ctx.pred_fail(item, case, 'reader raised on a complete re-declared file: ' + rec['rerr'])
+            continue
+        bad = judge_cv_foreign(rec['full'], rec['out'], rec['meta'], fo, r['parsed'][0]['title'], rec['prec32'])
+        if rec['warned']:
+            bad = bad or 'complete re-declared file read with a truncation warning'
+        if m == 'none' or m == 'bad-op':
+            ctx.disagree(item, case, f'array of shape {tuple(rec["out"].shape)}', m)
+        else:
+            t = m.split()
+            mvals = np.array([C.w2f(x) for x in t[3:]])
+            if tuple(rec['out'].shape) != (int(t[0]), int(t[1])):
+                ctx.disagree(item, case, f'shape {tuple(rec["out"].shape)}', f'shape {(int(t[0]), int(t[1]))}')
+            elif not same_bits(rec['out'], mvals):
+                if bad is None and close_values(rec['out'], mvals, 4 if not rec['prec32'] else 2 ** 30):
+                    ctx.notes.append(f'{item}: values differ from the model in the last bits only and the predicate holds: not a disagreement')
+                else:
+                    o64 = np.asarray(rec['out'], dtype=np.float64).ravel()
+                    bi = [i for i in range(o64.size) if not same_bits(o64[i:i + 1], mvals[i:i + 1])]
+                    ctx.disagree(item, case, f'{len(bi)} samples differ; first at flat index {bi[0]}: {o64[bi[0]]!r}', f'{mvals[bi[0]]!r}')
+            if (t[2] == '1') != rec['warned']:
+                ctx.disagree(item, case, f'warned={rec["warned"]}', f'warned={t[2] == "1"}')
+        if bad:
+            ctx.pred_fail(item, case, bad)
+    for tx, rr in zip(bad_pre, bad_res):
+        mp = next(rep)
+        ctx.case('codev.preamble', {'text': tx}, nontrivial=True, tag='malformed')
+        if (mp == 'none') != (rr == 'raise'):
+            ctx.disagree('codev.preamble', {'text': tx}, rr, mp)
+    for t in trunc:
+        rec = t['rec']
+        c = rec['r']['c']
+        for k, res in zip(t['ks'], t['res']):
+            case = descr(c, {'route': 'codev', 'cut': k})
+            case['opt'] = dict(c['opt'], cvforeign=rec['fo'])
+            ctx.case('codev.foreign_truncation', {'shape': case['shape'], 'values': case['values'], 'cut': k, 'foreign': rec['fo']}, nontrivial=True,
+                     tag=f'bang{rec["fo"]["bang"]}/{rec["fo"]["layout"]}')
+            bad = judge_cv_cut(rec['out'], res, rec['text'], k)
+            if bad:
+                ctx.pred_fail('codev.foreign_truncation', case, bad)
+
+
+# ------------------------------------------------------------------------------------------------
+# call histories: an Interferogram that was LOADED from a file (meta, intensity, wavelength taken from the header) is saved
+# again and re-loaded, twice.  Every generation must satisfy the property against the previous one, the header fields
+# (spacing, wavelength: float32 values) must be stable from the first generation on, and the bytes of every generation
+# are those the model writes for the values of the previous one.
+# ------------------------------------------------------------------------------------------------
+def history_pred(a, dx, wvl, tmp, gens=3):
+    pio, Interferogram = _impl()
+    f = os.path.join(tmp, 'h.dat')
+    with _quiet():
+        Interferogram(np.array(a, dtype=float), dx=dx, wavelength=wvl).save_zygo_dat(f)
+        prev = Interferogram.from_zygo_dat(f)
+        for g in range(2, gens + 1):
+            prev.save_zygo_dat(f)
+            cur = Interferogram.from_zygo_dat(f)
+            bad = judge_zygo(prev.data, prev.dx, prev.wavelength, cur.data, cur.dx, cur.wavelength, cur.meta)
+            if bad is None and (cur.meta['lateral_resolution'] != prev.meta['lateral_resolution'] or cur.meta['wavelength'] != prev.meta['wavelength']):
+                bad = (f'header drifts: lateral_resolution {prev.meta["lateral_resolution"]!r} -> {cur.meta["lateral_resolution"]!r}, '
+                       f'wavelength {prev.meta["wavelength"]!r} -> {cur.meta["wavelength"]!r}')
+            if bad:
+                return f'generation {g} (save of a loaded interferogram, re-loaded): {bad}'
+            prev = cur
+    return None
+
+
+def _history_family(ctx, pio, Interferogram, tmp, ic):
+    f2w = C.f2w
+    cases = [c for c in ic if c['v'].size <= 60 and c['opt']['dtype'] == 'f8' and not c['opt']['prec32'] and c['nan'] != 'all'][:ctx.scale(25, 300)]
+    recs, lines = [], []
+    drift = 0
+    for c in cases:
+        f = os.path.join(tmp, 'hf.dat')
+        rec = {'c': c, 'gens': []}
+        try:
+            with _quiet():
+                Interferogram(c['a'], dx=c['dx'], wavelength=c['wvl']).save_zygo_dat(f)
+                prev = Interferogram.from_zygo_dat(f)
+                for g in (2, 3):
+                    prev.save_zygo_dat(f)
+                    raw = open(f, 'rb').read()
+                    cur = Interferogram.from_zygo_dat(f)
+                    ts = int.from_bytes(raw[76:80], 'big')
+                    h, w_ = prev.data.shape
+                    lines.append(f'zfile {h} {w_} {f2w(float(prev.dx))} {f2w(float(prev.wavelength))} {ts} ' + ' '.join(f2w(float(v)) for v in np.asarray(prev.data, dtype=np.float64).ravel()))
+                    rec['gens'].append((g, prev, cur, raw))
+                    prev = cur
+        except Exception as ex:   # noqa
+            rec['err'] = f'{type(ex).__name__}: {ex}'
+        recs.append(rec)
+    rep = iter(C.lean_driver('C14', lines))
+    for rec in recs:
+        c = rec['c']
+        case = descr(c, {'route': 'ifg'})
+        case['opt'] = dict(c['opt'], history=3)
+        for g, prev, cur, raw in rec['gens']:
+            mfile = next(rep)
+            ctx.case('ifg.history', {'shape': case['shape'], 'values': case['values'], 'gen': g}, nontrivial=nontrivial(c), tag=f'gen{g}/{c["cls"]}/{c["nan"]}')
+            bad = judge_zygo(prev.data, prev.dx, prev.wavelength, cur.data, cur.dx, cur.wavelength, cur.meta)
+            if bad is None and (cur.meta['lateral_resolution'] != prev.meta['lateral_resolution'] or cur.meta['wavelength'] != prev.meta['wavelength']):
+                bad = 'header drifts between generations: spacing / wavelength'
+            if raw.hex() != mfile:
+                mb = bytes.fromhex(mfile) if len(mfile) % 2 == 0 else b''
+                ia = np.frombuffer(raw[834:], dtype='>i4').astype(np.int64)
+                ib = np.frombuffer(mb[834:], dtype='>i4').astype(np.int64) if len(mb) == len(raw) else None
+                if ib is not None and raw[:834] == mb[:834] and bad is None and close_ints(ia, ib):
+                    ctx.notes.append('ifg.history: integers differ from the model by one count at most and the round trip holds: not counted as a disagreement')
+                else:
+                    off = next((i for i in range(min(len(raw), len(mb))) if raw[i] != mb[i]), min(len(raw), len(mb)))
+                    ctx.disagree('ifg.history', {**case, 'gen': g}, f'{len(raw)} bytes; first difference at byte {off}', f'{len(mb)} bytes')
+            ok = ~np.isnan(np.asarray(prev.data, dtype=np.float64))
+            if ok.any() and not same_bits(np.asarray(prev.data)[ok], np.asarray(cur.data)[ok]):
+                drift += 1
+            if bad:
+                ctx.pred_fail('ifg.history', case, f'generation {g}: {bad}')
+        if 'err' in rec:
+            ctx.case('ifg.history', {'shape': case['shape'], 'values': case['values'], 'gen': 0}, nontrivial=True, tag='raised')
+            ctx.pred_fail('ifg.history', case, 'saving / re-loading a loaded interferogram raised ' + rec['err'])
+    if drift:
+        ctx.notes.append(f'ifg.history: {drift} of {sum(len(r["gens"]) for r in recs)} re-saved generations lose one count on some sample (floating-point '
+                         'n*q/q just below n is truncated to n-1): within one quantisation step, so inside the property; exact arithmetic '
+                         'is idempotent (theorem zygo_requantise_exact)')
+
+
+def _rewrite(f, raw):
+    with open(f, 'wb') as fh:
+        fh.write(raw)
+    return f
+
+
+# ------------------------------------------------------------------------------------------------
 # correspondence
 # ------------------------------------------------------------------------------------------------
 def correspondence(ctx):
@@ -871,6 +1431,10 @@ def _correspondence(ctx, pio, Interferogram, tmp):
             if bad:
                 ctx.pred_fail('codev.truncation', case, bad)
 
+    _foreign_family(ctx, pio, Interferogram, tmp, zc)
+    _cv_foreign_family(ctx, pio, tmp, crec)
+    _history_family(ctx, pio, Interferogram, tmp, ic)
+
     # large maps (dimensions and sizes the list-based model would take too long on): real code + predicates only
     for route in ('zygo', 'ifg', 'codev'):
         for c in gen_cases(ctx, route, ctx.scale(2, 8), shapes=BIG_SHAPES):
@@ -923,6 +1487,12 @@ def _apply_dtype(a, opt):
 
 
 def _run_pred(route, a, dx, wvl, tmp, opt=None):
+    if opt and opt.get('foreign'):
+        return foreign_pred(route, a, dx, wvl, opt['foreign'], tmp, prec32=bool(opt.get('prec32')))
+    if opt and opt.get('cvforeign'):
+        return cv_foreign_pred(_apply_dtype(a, opt), opt['cvforeign'], tmp, opt={k: v for k, v in opt.items() if k != 'cvforeign'})
+    if opt and opt.get('history'):
+        return history_pred(a, dx, wvl, tmp, gens=int(opt['history']))
     a = _apply_dtype(a, opt)
     if route in ('zygo', 'ifg'):
         return pred_zygo_roundtrip(route, tmp, a, dx, wvl, opt)
@@ -931,8 +1501,12 @@ def _run_pred(route, a, dx, wvl, tmp, opt=None):
     raise ValueError(route)
 
 
-def _cut_pred(route, a, dx, wvl, k, tmp):
+def _cut_pred(route, a, dx, wvl, k, tmp, opt=None):
     pio, _ = _impl()
+    if opt and opt.get('foreign'):
+        return foreign_pred(route, a, dx, wvl, opt['foreign'], tmp, cut=k)
+    if opt and opt.get('cvforeign'):
+        return cv_foreign_pred(a, opt['cvforeign'], tmp, cut=k, opt={k_: v for k_, v in opt.items() if k_ != 'cvforeign'})
     if route in ('zygo', 'ifg'):
         f = os.path.join(tmp, 's.dat')
         with _quiet():
@@ -972,7 +1546,7 @@ def search(ctx, hints):
         def consider(route, a, dx, wvl, cut=None, opt=None):
             nonlocal best
             try:
-                bad = _cut_pred(route, a, dx, wvl, cut, tmp) if cut is not None else _run_pred(route, a, dx, wvl, tmp, opt)
+                bad = _cut_pred(route, a, dx, wvl, cut, tmp, opt) if cut is not None else _run_pred(route, a, dx, wvl, tmp, opt)
             except Exception as ex:   # noqa  an exception on a complete in-scope map is a violation
                 bad = f'raised {type(ex).__name__}: {ex}'
             if bad and (best is None or a.size < best[0]):
@@ -998,6 +1572,46 @@ def search(ctx, hints):
                     if opt and 'fileobj' in opt and route != 'zygo':
                         continue
                     consider(route, a, 0.5, 0.6328, opt=opt)
+        if best is None:
+            # instrument-style re-declarations of small written files: every pair of (phase_res, scale/obliquity, intensity
+            # block, header length, frame action), then every cut point of two of them
+            for (h, w) in ((1, 2), (2, 3), (3, 2)):
+                a = (np.arange(1, h * w + 1, dtype=float).reshape(h, w) - 2.5) * 123.0
+                if (h, w) == (2, 3):
+                    a[0, 2] = np.nan
+                for i in range(35):
+                    for route in ('zygo', 'ifg'):
+                        consider(route, a, 0.5, 0.6328, opt={'foreign': foreign_variant(i)})
+                if best is not None:
+                    break
+        if best is None:
+            for shape, name, a in list(_small_maps())[:40]:
+                if consider('ifg', a, 0.5, 0.6328, opt={'history': 3}):
+                    break
+        if best is None:
+            for (h, w) in ((1, 2), (2, 3)):
+                a = (np.arange(1, h * w + 1, dtype=float).reshape(h, w) - 2.5) * 123.0
+                if (h, w) == (2, 3):
+                    a[1, 0] = np.nan
+                for i in range(60):
+                    consider('codev', a, 0.5, 0.6328, opt={'cvforeign': cv_foreign_variant(i)})
+                if best is not None:
+                    break
+        if best is None:
+            a = (np.arange(1, 7, dtype=float).reshape(2, 3) - 2.5) * 123.0
+            for i in (4, 7):
+                for k in range(400):
+                    if consider('codev', a, 0.5, 0.6328, cut=k, opt={'cvforeign': cv_foreign_variant(i)}):
+                        break
+        if best is None:
+            a = (np.arange(1, 7, dtype=float).reshape(2, 3) - 2.5) * 123.0
+            for i in (3, 10):
+                fo = foreign_variant(i)
+                n = 834 + fo['pad'] + 2 * foreign_block(fo).size + 4 * a.size
+                for route in ('zygo', 'ifg'):
+                    for k in range(n):
+                        if consider(route, a, 0.5, 0.6328, cut=k, opt={'foreign': fo}):
+                            break
         if best is None:
             for (h, w) in ((1, 3), (2, 3), (3, 2)):
                 a = (np.arange(1, h * w + 1, dtype=float).reshape(h, w) - 2.5) * 123.0
@@ -1035,7 +1649,7 @@ def replay(inp):
             print('map written:\n', a)
         try:
             if c.get('cut') is not None:
-                bad = _cut_pred(route, a, c['dx'], c['wvl'], c['cut'], tmp)
+                bad = _cut_pred(route, a, c['dx'], c['wvl'], c['cut'], tmp, opt)
             else:
                 bad = _run_pred(route, a, c['dx'], c['wvl'], tmp, opt)
         except Exception as ex:   # noqa
@@ -1094,12 +1708,28 @@ MANIFEST_ENTRY = {
              'emit (typ SUR/WFR/FIL, NNB) is accepted by the generated keyword table of the reader, the generated line layout divides every '
              'map size, end to end over the model every integer comes back in place, and on the TEXT of the data block every cut point is '
              'rejected or warned with only the last (possibly cut) number invalid; the mm/m and um/m conversions of the Interferogram pair '
-             'are exact inverses and inherit the relative error of the float32 field.  TRANSLATED from the current source on every run (16 '
-             'items).  MODELLED AND COMPARED: every byte of written .dat files, all 158 decoded header fields, every token of written grid INT '
+             'are exact inverses and inherit the relative error of the float32 field.  FILE LAYOUT (session 3): the reader\'s block arithmetic '
+             '(bucket default, ilen, intensity offset / count / dtype / frame order, phase offset / count / dtype, frame selection table, header '
+             'keys) is generated and proved equal to the model, the phase block starts exactly where the intensity block ends and the truncation '
+             'repair re-reads from that same offset (gen_zygo_layout); every written file declares header_size 834 and an empty intensity block, '
+             'so the reader\'s phase offset is the length of the written header (zygo_written_layout); for ANY header length and intensity block '
+             'content the reader returns for the phase bytes what it returns for a plain file (intensity_block_transparent), hence every cut point '
+             'of a file WITH an intensity block is rejected (header / intensity cut) or warned with exactly the complete samples valid '
+             '(truncation_safe_layout, full_file_layout_reads_back); every resolution code of the generated table is positive, a file declaring '
+             'S, O, code R reads S*O*32768/R times the plain value (zygo_declared_factors) and quantisation is within one step for every code and '
+             'positive factors (zygo_quant_error_any_resolution); re-saving a loaded map reproduces the counts in exact arithmetic '
+             '(zygo_requantise_exact); Code V WVL w with SSZ*w reads as WVL 1 (codev_unit_invariant); every sequence of keyword groups of the generated reader table is accepted, in any order (codev_header_order_free); over the generated action table first / last select frame 0 / ib-1 (select_frame_first_last).  TRANSLATED from the current source on every '
+             'run (18 items).  MODELLED AND COMPARED: instrument-style Zygo files (phase_res, scale, obliquity, header length, intensity block, frame '
+             'action; phase + header + intensity frame bit for bit, every cut point), re-declared Code V headers (order, case, units, sentinel, "!" '
+             'comment lines, layout), save/load/save histories of Interferogram (bytes of each generation against the model); every byte of written .dat files, all 158 decoded header fields, every token of written grid INT '
              'files, every bit of the arrays read back (float64 and float32 results), reader behaviour at every truncation point of several '
              'files through all three routes; the property predicates are evaluated on the real outputs independently of the model.  ONLY '
              'COMPARED, not proved: IEEE evaluation of the formulas, struct/float32 packing, text tokenisation, that k < 834 is rejected by '
-             'NumPy.  NOT COVERED: .datx (HDF5) and Zygo ASCII (no writer/reader pair), intensity frames, multi-line or "!"-leading comments.'),
+             'NumPy.  Also proved (session 3): the Code V preamble over the GENERATED strip characters / marker (any number of "!" comment lines '
+             'skipped, then title line, header line, data: codev_preamble_roundtrip, gen_codev_preamble) and little-endian uint16 intensity '
+             'read-back at any offset (intensity_roundtrip).  OBSERVED, inside the property: a re-saved loaded map can lose one count per '
+             'generation on some samples (float n*q/q just below n, truncated) - within one step each time.  NOT COVERED: .datx (HDF5) and Zygo '
+             'ASCII (no reader), writing intensity (write_zygo_dat ignores its intensity argument), multi-line titles or titles starting with "!".'),
     'note': ('Trusted: Lean kernel + propext/Classical.choice/Quot.sound; tools/gen_c14.py (validated each run: every generated header row '
              'is compared with the run-time table and struct.calcsize/struct.pack through the driver); struct, float32 conversion and text '
              'formatting; IEEE agreement between NumPy and Lean Float (values compared bit for bit, so any disagreement shows).'),
